@@ -564,6 +564,13 @@ func c09Structure(kind string, n int) []byte {
 		}
 		sb.WriteString(strings.Repeat("</p:e>", n))
 		sb.WriteString(`</samlp:Response>`)
+	case "default-namespaces-leaf-prefix":
+		// default namespaces only; n childless elements each declare a prefix of their own
+		sb.WriteString(`<Response xmlns="` + idp.NSP + `" ID="_l" Version="2.0">`)
+		for i := 0; i < n; i++ {
+			fmt.Fprintf(&sb, `<Issuer xmlns="%s" xmlns:x%d="urn:x:%d">https://idp.example.com/metadata</Issuer>`, idp.NSA, i, i)
+		}
+		sb.WriteString(`<Status><StatusCode Value="` + idp.StatusSuccess + `" xmlns:y="urn:y"/></Status></Response>`)
 	case "signatures":
 		sb.WriteString(`<samlp:Response xmlns:samlp="` + idp.NSP + `" xmlns:ds="` + idp.NSDS + `" ID="_s" Version="2.0">`)
 		sb.WriteString(strings.Repeat(`<ds:Signature><ds:SignedInfo/><ds:SignatureValue/></ds:Signature>`, n))
@@ -919,6 +926,7 @@ func c09Run(r *mc.Run) {
 	structs := []st{{"depth", 10, 20 * time.Second}, {"depth", 1000, 20 * time.Second}, {"depth", 10001, 30 * time.Second}, {"width", 1000, 20 * time.Second}, {"width", 100000, 60 * time.Second},
 		{"attributes", 10000, 60 * time.Second}, {"text", 4000000, 60 * time.Second}, {"namespaces", 2000, 60 * time.Second}, {"namespaces", 31, 20 * time.Second}, {"namespaces", 33, 20 * time.Second}, {"namespaces", 256, 20 * time.Second},
 		{"namespace-redeclarations", 8, 20 * time.Second}, {"namespace-redeclarations", 11, 20 * time.Second}, {"namespace-redeclarations", 40, 20 * time.Second}, {"namespace-redeclarations", 90, 20 * time.Second}, {"namespace-redeclarations", 700, 20 * time.Second}, {"namespace-redeclarations", 30000, 60 * time.Second},
+		{"default-namespaces-leaf-prefix", 1, 20 * time.Second}, {"default-namespaces-leaf-prefix", 3, 20 * time.Second}, {"default-namespaces-leaf-prefix", 40, 20 * time.Second},
 		{"nested-namespace-redeclarations", 12, 20 * time.Second}, {"nested-namespace-redeclarations", 17, 20 * time.Second}, {"nested-namespace-redeclarations", 40, 20 * time.Second}, {"nested-namespace-redeclarations", 300, 20 * time.Second}, {"nested-namespace-redeclarations", 5000, 60 * time.Second},
 		{"signatures", 300, 60 * time.Second}}
 	if r.Thorough() {
